@@ -4,6 +4,8 @@ import (
 	"fmt"
 	"os"
 	"reflect"
+	"regexp"
+	"strconv"
 	"strings"
 	"time"
 
@@ -28,7 +30,7 @@ type c18val struct {
 	want interface{} // typed value the procedures must receive
 }
 
-func sv(text, want string) c18val { return c18val{text, want} }
+func sv(text, want string) c18val     { return c18val{text, want} }
 func iv(text string, want int) c18val { return c18val{text, want} }
 
 func c18keys() []c18key {
@@ -53,7 +55,7 @@ func c18keys() []c18key {
 		{"stg_ngap_port", "StgNgapPort", "int", portAlts(9487)},
 		{"gnb_id", "Gnb_id", "string", []c18val{sv(`"\x00\x01\x02"`, "\x00\x01\x02"), sv(`"\x7f\x00\x7e\x01"`, "\x7f\x00\x7e\x01"), sv(`"abc"`, "abc"), sv(`"é\x01"`, "é\x01"), sv(`"\t\n\\\""`, "\t\n\\\""), sv(`""`, ""), sv(`"\0\x01\x02"`, "\x00\x01\x02"), sv(`"\x20\x01\x20"`, "\x20\x01\x20"), sv(`"\x09\x01\x0d"`, "\x09\x01\x0d")}},
 		{"gnb_bitlength", "Gnb_bitlength", "uint64", []c18val{{"24", uint64(24)}, {"22", uint64(22)}, {"32", uint64(32)}, {"0", uint64(0)}, {"27", uint64(27)}}},
-		{"gnb_name", "Gnb_name", "string", []c18val{sv(`"open5gs"`, "open5gs"), sv("gnb-1", "gnb-1"), sv(`""`, ""), sv(`"name with spaces"`, "name with spaces"), sv(`"` + strings.Repeat("x", 150) + `"`, strings.Repeat("x", 150)), sv(`'single #quoted'`, "single #quoted"), sv(`" gnb 7 "`, " gnb 7 ")}},
+		{"gnb_name", "Gnb_name", "string", []c18val{sv(`"open5gs"`, "open5gs"), sv("gnb-1", "gnb-1"), sv(`""`, ""), sv(`"name with spaces"`, "name with spaces"), sv(`"`+strings.Repeat("x", 150)+`"`, strings.Repeat("x", 150)), sv(`'single #quoted'`, "single #quoted"), sv(`" gnb 7 "`, " gnb 7 ")}},
 		{"initial_imsi", "Initial_imsi", "string", []c18val{sv(`"001010000000001"`, "001010000000001"), sv(`"999990123456789"`, "999990123456789"), sv(`"00101000000001"`, "00101000000001"), sv(`'000000000000000'`, "000000000000000"), sv(`""`, "")}},
 		{"mcc", "Mcc", "string", []c18val{sv(`"001"`, "001"), sv(`"999"`, "999"), sv(`'000'`, "000"), sv(`"208"`, "208")}},
 		{"mnc", "Mnc", "string", []c18val{sv(`"01"`, "01"), sv(`"001"`, "001"), sv(`"99"`, "99"), sv(`'00'`, "00"), sv(`"410"`, "410")}},
@@ -234,6 +236,67 @@ func runC18(ctx *Ctx) {
 		}
 	})
 	r.Set("argument_vectors", len(argvs))
+
+	// (d) the five repetition counts at numeric extremes: what main() derives from them is printed in the "Configured
+	// tests" banner before anything is sent (the AMF closes instead of answering NG Setup, so nothing is executed):
+	// registrations r; sessions min(r,p); service requests and releases min(min(r,p),s|l); deregistrations min(r,d) -
+	// in integer arithmetic, for every vector with <=2 (thorough: every vector) components away from 3
+	big := []int64{3, 0, 1, 1<<31 - 1, 1 << 31, 1<<53 + 1, 1<<53 + 3, 1<<63 - 1}
+	var vecs [][5]int64
+	var gen func(pos int, cur [5]int64, dev int)
+	gen = func(pos int, cur [5]int64, dev int) {
+		if pos == 5 {
+			vecs = append(vecs, cur)
+			return
+		}
+		for i, v := range big {
+			d := dev
+			if i != 0 {
+				d++
+			}
+			if !ctx.Thorough && d > 2 {
+				continue
+			}
+			cur[pos] = v
+			gen(pos+1, cur, d)
+		}
+	}
+	gen(0, [5]int64{}, 0)
+	min64 := func(a, b int64) int64 {
+		if a < b {
+			return a
+		}
+		return b
+	}
+	ParallelFor(r, len(vecs), func(lo *report.Local, i int) {
+		v := vecs[i]
+		emu := n2.DefaultEmuConfig()
+		y := emu.YAML()
+		for k, key := range []string{"ue_registration", "ue_pdu", "ue_service", "ue_pdu_release", "ue_deregistration"} {
+			y = regexp.MustCompile(`(?m)^(\s*`+key+`\s*:).*$`).ReplaceAllString(y, fmt.Sprintf("${1} %d", v[k]))
+		}
+		a := refamf.New(acfg, refamf.DefaultChoices(), codec)
+		res := n2.Run(n2.Opts{YAML: y, AMF: a, Fault: &n2.Fault{K: 1, Kind: "close"}, Horizon: 30 * time.Second})
+		cs := fmt.Sprintf("counts(reg,pdu,svc,rel,dereg)=%v: banner", v)
+		lo.Case(cs, true, "")
+		if res.HarnessErr != "" {
+			r.HarnessError(res.HarnessErr)
+			return
+		}
+		pdu := min64(v[0], v[1])
+		want := map[string]int64{"Registering UEs:": v[0], "PDU sessions to establish:": pdu, "Services to request:": min64(pdu, v[2]), "PDU sessions to release:": min64(pdu, v[3]), "Deregistering UEs:": min64(v[0], v[4])}
+		for label, w := range want {
+			m := regexp.MustCompile(regexp.QuoteMeta("> "+label) + `\s*(-?\d+)`).FindStringSubmatch(res.Stdout)
+			if m == nil {
+				r.Violate("counts/banner-line-missing", cs, label+" not in: "+tail(res.Stdout, 400), nil)
+				continue
+			}
+			if got, _ := strconv.ParseInt(m[1], 10, 64); got != w {
+				r.Violate("counts/derived-count-wrong/"+strings.TrimSuffix(label, ":"), cs, fmt.Sprintf("banner says %s %s, configured counts give %d", label, m[1], w), nil)
+			}
+		}
+	})
+	r.Set("count_vectors_at_numeric_extremes", len(vecs))
 	r.Sample(`argv[1:]=["-t" ""] -> usage, no message reaches the AMF`)
 	r.Rule = fmt.Sprintf("(a) configuration files generated from typed values: for each of the 24 documented keys an alphabet (quoted/single-quoted/plain strings, \\x, \\u, \\0, \\t escapes in gnb_id, empty strings, leading zeros, comments after a value, ints 0/1/2^31-1/negative/leading zeros, both key orders): every file with <=%d deviations from the shipped values; GetConfiguration field by field == the typed values; "+
 		"(b) on the wire through the closed system (reference AMF): <=%d deviations over IMSI/PLMN shape, K/OP/OPc form, gNB id/length/name, sst, sd, gnb_gtp_ip, the five repetition counts and ue_number; (c) every argument vector of length 0..3 over {-t,-T,t,\"\",--t,\"-t \"} at process level: banner, usage, and number of messages reaching the AMF; non-trivial = at least one deviation / every argv", bound, bound)
